@@ -35,7 +35,7 @@ class Lemma:
 class Contract:
     def __init__(self, fq, arg_types=None, requires=(), ensures=(), raises=(), modifies=(), result=None,
                  effects=None, emits=None, loops=None, props=(), setup=None, trusted=False, pure=False,
-                 modular=True, notes="", pre_lemmas=()):
+                 modular=True, notes="", pre_lemmas=(), guard_requires=False, raises_outside=()):
         self.fq = fq
         self.arg_types = dict(arg_types or {})
         self.requires = list(requires)  # [(label, fn(o))]
@@ -53,6 +53,10 @@ class Contract:
         self.modular = modular
         self.notes = notes
         self.pre_lemmas = list(pre_lemmas)
+        # guard_requires: callers need not establish `requires`; the postconditions are only assumed when it
+        # holds, otherwise the callee's effect is unspecified (frame havocked, any of raises_outside possible)
+        self.guard_requires = guard_requires
+        self.raises_outside = tuple(raises_outside)
 
     # ------------------------------------------------------------------ used at call sites
     def modifies_list(self, o):
@@ -76,10 +80,25 @@ class Contract:
                 roots[p] = interp.ev(a.defaults[di], Frame(fi, {}))
         line = getattr(node, "lineno", None)
         o = Roots(roots)
-        for label, fn in self.requires:
-            ctx.oblige(f"{_caller(interp)}::pre-of-callee::{fi.qualname}.{label}@{line}", fn(o), kind="pre-of-callee",
-                       line=line, props=self.props)
-            ctx.assume(fn(o))
+        if self.guard_requires:
+            g = And_(*[fn(o) for _, fn in self.requires])
+            if not ctx.decide(g):
+                # outside the callee's precondition: unspecified effect within its frame
+                old, _ = clone_graph(roots)
+                for loc in self.modifies_list(Roots(old)):
+                    obj, fld = interp.resolve_loc(roots, loc)
+                    interp.havoc(obj, fld)
+                for ex in self.raises_outside:
+                    if ctx.decide(ctx.fresh(f"outside:{fi.node.name}:{ex.__name__}", "bool")):
+                        e = SExc(ex, (), line=line)
+                        e.origin = fi.qualname
+                        raise RaiseSig(e)
+                return interp.fresh_value(self.result, f"ret:{fi.node.name}!{next(ctx._n)}") if self.result is not None else None
+        else:
+            for label, fn in self.requires:
+                ctx.oblige(f"{_caller(interp)}::pre-of-callee::{fi.qualname}.{label}", fn(o), kind="pre-of-callee",
+                           line=line, props=self.props)
+                ctx.assume(fn(o))
         old, _ = clone_graph(roots)
         oldr = Roots(old)
         # exceptional outcomes
@@ -93,7 +112,9 @@ class Contract:
                     interp.havoc(obj, fld)
                 if rc.post is not None:
                     ctx.assume(rc.post(oldr, Roots(roots)))
-                raise RaiseSig(SExc(rc.exc, (), line=line))
+                e = SExc(rc.exc, (), line=line)
+                e.origin = fi.qualname
+                raise RaiseSig(e)
         # normal outcome
         for loc in self.modifies_list(oldr):
             obj, fld = interp.resolve_loc(roots, loc)
